@@ -408,7 +408,10 @@ def run_case(case, hooks=None, mutate=False):
                     inj.__enter__()
                 try:
                     try:
-                        r = FileBuilder.build_versioned(ctx.spell(cache_abs), name, versions, rootf, dsl.dec_pyval(arg_w))
+                        if versions == {} and step_index % 2 == 1:
+                            r = FileBuilder.build(ctx.spell(cache_abs), name, rootf, dsl.dec_pyval(arg_w))
+                        else:
+                            r = FileBuilder.build_versioned(ctx.spell(cache_abs), name, versions, rootf, dsl.dec_pyval(arg_w))
                         res = {'ok': wire.enc(r)}
                     except Exception as e:
                         res = {'exc': show_exc(e, ctx)}
@@ -422,7 +425,7 @@ def run_case(case, hooks=None, mutate=False):
                 obs = {'res': res, 'tree': snapshot(root, cache_abs), 'inv': ctx.inv, 'root': root, 'spelled': dict(ctx.spellings),
                        'root_called': bool(getattr(ctx, 'root_entered', False)),
                        'cache_json': read_cache_json(cache_abs) if 'ok' in res and os.path.isfile(cache_abs) else None,
-                       'queries': ctx.query_log, 'contract': ctx.contract, 'cache_early': ctx.cache_early,
+                       'queries': ctx.query_log, 'contract': ctx.contract, 'cache_early': ctx.cache_early, 'api_used': dict(ctx.api_used),
                        'tmp_leak': [n for n in tmp_leftovers() if n not in before_tmp]}
                 if inj is not None:
                     obs['fault'] = {'fired': inj.fired, 'injectable_calls': inj.count, 'calls': inj.log[:60]}
